@@ -687,6 +687,49 @@ def _history(w, r, rec, nevents, want_model, parse_gitlog, snap_of, deadline=Non
             bob_event("clean-src", ["clean", "-s"] + (["--dry-run"] if r.random() < 0.25 else []))
             if not os.path.isdir(wsroot):
                 touched.clear()
+    # ---- scripted tails that make the clean commands meet user work (otherwise a rare coincidence)
+    tail = r.random()
+    if not rec.get("cut") and tail < 0.3:
+        gd = git_dirs()
+        if gd and used:
+            d, path = r.choice(gd)
+            desc = user_op(w, r, path, ledger)
+            cache.clear()
+            touched.add(norm(d))
+            rec["log"].append("user %s: %s" % (d, desc))
+            prune_ledger()
+            used = False
+            write_recipes(w, specs, used, policies)
+            rec["log"].append("unuse-app")
+            changed = True
+            bob_event("dev", ["dev", "root"])
+            bob_event("clean-src", ["clean", "-s"])
+            if not os.path.isdir(wsroot):
+                touched.clear()
+    elif not rec.get("cut") and tail < 0.6:
+        gd = git_dirs()
+        if gd and used:
+            d, path = r.choice(gd)
+            desc = user_op(w, r, path, ledger)
+            cache.clear()
+            touched.add(norm(d))
+            rec["log"].append("user %s: %s" % (d, desc))
+            prune_ledger()
+            # make the parent (or the SCM itself) unswitchable: it goes to the attic
+            tops = [i for i, s_ in enumerate(specs) if is_prefix(s_["dir"], d)]
+            i = r.choice(tops)
+            specs = [dict(s_) for s_ in specs]
+            if specs[i]["scm"] == "git":
+                specs[i]["submodules"] = not specs[i].get("submodules", False)
+                repo = r.choice(sorted(w.repos))
+                specs[i].update({k_: v_ for k_, v_ in gen_git_spec(r, w, specs[i]["dir"], repo).items() if k_ != "dir"})
+            else:
+                specs[i] = gen_git_spec(r, w, specs[i]["dir"])
+            write_recipes(w, specs, used, policies)
+            rec["log"].append("edit-unswitchable " + json.dumps([[s_["scm"], s_.get("dir")] for s_ in specs]))
+            changed = True
+            bob_event("dev", ["dev", "root"])
+            bob_event("clean-attic", ["clean", "--attic"])
     # ---- final: converge check
     if not used:
         used = True
@@ -1363,7 +1406,15 @@ def direct_git_case(job):
             pre, _ = w.abstract_repo(clone, [])
             mw = w.model_world()
             if k < 0.7:
-                st = gitscm_status(w, clone, cur, ubc)
+                st, expendable = gitscm_status(w, clone, cur, ubc)
+                # oracle: a clone that reports `expendable` may be deleted by a non-forced `bob clean`,
+                # so it must not hold user work
+                held = [it for it in ledger if item_present(w, clone, it)]
+                if expendable and held:
+                    res["violations"].append({
+                        "what": "GitScm.status reports the clone expendable (flags %r) although it holds user work %s (steps: %s)"
+                                % (st, json.dumps(held[:3]), [s_["desc"] for s_ in res["steps"]]),
+                        "case": {"kind": "direct-git", "gseed": gseed}, "signature": "expendable-clone-holds-user-work"})
                 n += 1
                 res["steps"].append({"n": n, "desc": "status " + brief(cur), "impl": st,
                                      "req": dict({"op": "status", "repo": pre, "spec": model_spec(w, cur, ubc), "extra": False}, **mw)})
@@ -1449,6 +1500,7 @@ if __name__ == "__main__":
     if job["mode"] == "status":
         st = new.status(ws)
         out["flags"] = [f.name for f in st.flags]
+        out["expendable"] = bool(st.expendable)
     else:
         inv = Invoker(spec, True, True, False, False, False, True)
         try:
@@ -1494,7 +1546,7 @@ def gitscm_call(w, clone, mode, old, new, ubc):
 
 def gitscm_status(w, clone, spec, ubc):
     out = _child(w, {"ws": clone, "mode": "status", "new": spec, "ubc": ubc})
-    return out.get("flags", ["?"])
+    return out.get("flags", ["?"]), out.get("expendable")
 
 
 MANIFEST = {
